@@ -4,6 +4,7 @@ import (
 	"verif/harness/kit"
 
 	ibctesting "github.com/cosmos/ibc-go/v11/testing"
+	"github.com/cosmos/ibc-go/v11/testing/simapp"
 )
 
 // exported views for other packages (sys) that reuse the simulator as a history generator
@@ -24,7 +25,10 @@ func (s *Sim) IsOrderedAckHead(p *Pkt) bool   { return s.isOrderedAckHead(p) }
 func (s *Sim) Trace() []string                { return s.trace }
 
 // InstallApps gives a chain's mock v2 applications the behaviour the simulator uses (needed for twins of a chain).
-func InstallApps(ch *kit.Chain) {
-	ch.Sim.MockModuleV2A.IBCApp.OnRecvPacket = distinctAckApp("aa-app-A")
-	ch.Sim.MockModuleV2B.IBCApp.OnRecvPacket = distinctAckApp("zz-app-B")
+func InstallApps(ch *kit.Chain) { InstallAppsOn(ch.Sim) }
+
+// InstallAppsOn does the same for a bare application (replicas).
+func InstallAppsOn(app *simapp.SimApp) {
+	app.MockModuleV2A.IBCApp.OnRecvPacket = distinctAckApp("aa-app-A")
+	app.MockModuleV2B.IBCApp.OnRecvPacket = distinctAckApp("zz-app-B")
 }
